@@ -168,6 +168,8 @@ impl FeoxStore {
                     return Err(FeoxError::OlderTimestamp);
                 }
                 crate::test_hooks::pause_at(crate::test_hooks::AFTER_UPSERT_READ);
+                #[cfg(feature = "verif")]
+                crate::verif::point("upsert_read", 0, 0);
 
                 match self.update_record_with_ttl(
                     &existing_record,
@@ -182,6 +184,8 @@ impl FeoxStore {
             }
 
             let reservation = self.reserve_memory(record_size)?;
+            #[cfg(feature = "verif")]
+            crate::verif::point("reserved", 0, 0);
 
             let record = if ttl_expiry > 0 && self.enable_ttl {
                 Arc::new(Record::new_with_timestamp_ttl(
@@ -219,6 +223,8 @@ impl FeoxStore {
             self.stats
                 .record_insert(start.elapsed().as_nanos() as u64, false);
 
+            #[cfg(feature = "verif")]
+            crate::verif::point("before_enqueue", 0, 0);
             if let (Some(wb), Some(record)) = (&self.write_buffer, buffered_record) {
                 wb.add_write(Operation::Insert, record, 0)?;
             }
@@ -283,6 +289,8 @@ impl FeoxStore {
                 if timestamp <= existing_record.timestamp {
                     return Err(FeoxError::OlderTimestamp);
                 }
+                #[cfg(feature = "verif")]
+                crate::verif::point("upsert_read", 0, 0);
 
                 match self.update_record_with_ttl_bytes(
                     &existing_record,
@@ -297,6 +305,8 @@ impl FeoxStore {
             }
 
             let reservation = self.reserve_memory(new_size)?;
+            #[cfg(feature = "verif")]
+            crate::verif::point("reserved", 0, 0);
 
             let record = if ttl_expiry > 0 {
                 Arc::new(Record::new_from_bytes_with_ttl(
@@ -338,6 +348,8 @@ impl FeoxStore {
             self.stats
                 .record_insert(start.elapsed().as_nanos() as u64, false);
 
+            #[cfg(feature = "verif")]
+            crate::verif::point("before_enqueue", 0, 0);
             if let (Some(wb), Some(record)) = (&self.write_buffer, buffered_record) {
                 wb.add_write(Operation::Insert, record, 0)?;
             }
@@ -390,6 +402,8 @@ impl FeoxStore {
             .hash_table
             .read(key, |_, v| v.clone())
             .ok_or(FeoxError::KeyNotFound)?;
+        #[cfg(feature = "verif")]
+        crate::verif::point("get_read", 0, 0);
 
         let (value, cache_hit, source) = self.resolve_value(key, record)?;
 
@@ -446,6 +460,8 @@ impl FeoxStore {
             .hash_table
             .read(key, |_, v| v.clone())
             .ok_or(FeoxError::KeyNotFound)?;
+        #[cfg(feature = "verif")]
+        crate::verif::point("get_read", 0, 0);
 
         let (value, cache_hit, source) = self.resolve_value(key, record)?;
 
@@ -539,7 +555,11 @@ impl FeoxStore {
             scc::hash_map::Entry::Vacant(_) => return Err(FeoxError::KeyNotFound),
         };
 
+        #[cfg(feature = "verif")]
+        crate::verif::point("deleted", 0, 0);
         self.remove_cached(key, &record);
+        #[cfg(feature = "verif")]
+        crate::verif::point("before_enqueue", 0, 0);
 
         // Queue deletion for persistence if write buffer exists and not memory-only
         if !self.memory_only {
@@ -742,12 +762,24 @@ impl FeoxStore {
     /// Timestamps double as record version numbers and must increase for a key.
     #[inline]
     pub(super) fn get_timestamp(&self, key: &[u8]) -> u64 {
+        #[cfg(feature = "verif")]
+        {
+            let timestamp = self.version_clock.next(key, self.get_timestamp_pub());
+            crate::verif::timestamp(timestamp);
+            return timestamp;
+        }
+        #[cfg(not(feature = "verif"))]
         self.version_clock.next(key, self.get_timestamp_pub())
     }
 
     #[inline]
     pub(super) fn resolve_timestamp(&self, key: &[u8], timestamp: Option<u64>) -> (u64, bool) {
         match timestamp {
+            #[cfg(feature = "verif")]
+            Some(timestamp) if timestamp != 0 => {
+                crate::verif::timestamp(timestamp);
+                (timestamp, true)
+            }
             Some(timestamp) if timestamp != 0 => (timestamp, true),
             _ => (self.get_timestamp(key), false),
         }
